@@ -38,8 +38,9 @@ FAMILY = {
               R('x', ('alt', ('seq', T('a'), C('y')), T('b'))), R('y', ('alt', T('b'), ('void',)))],
     'retry-nomemo': [R('start', ('alt', ('seq', C('x'), T('a')), ('seq', C('x'), T('b')), C('x'))),
                      R('x', ('alt', ('seq', T('a'), C('y')), T('b')), decorators=('nomemo',)), R('y', ('alt', T('b'), ('void',)))],
-    'params': [R('start', ('seq', ('pclo', ('alt', C('p'), C('q'))), ('eof',))),
-               R('p', T('a'), params=('A', 1)), R('q', T('b'), kwparams=(('k', 2),))],
+    'params': [R('start', ('seq', ('pclo', ('alt', C('p'), C('q'), C('z'))), ('eof',))),
+               R('p', T('a'), params=('A', 1)), R('q', T('b'), kwparams=(('k', 2),)),
+               R('z', ('seq', T('a'), T('b')), params=('Z',), kwparams=(('level', 0), ('flag', False), ('label', ''))) ],
     'named': [R('start', ('seq', ('named', 'l', C('x')), ('named', 'r', ('opt', C('y'))))),
               R('x', ('named', 'v', T('a'))), R('y', T('b'))],
     'lookahead-closure': [R('start', ('seq', ('look', C('x')), ('pclo', C('x')), ('opt', C('y')), ('eof',))),
@@ -155,6 +156,11 @@ class Declared:
         self.seen.append(('q', k))
         return ('Q', ast)
 
+    def z(self, ast, typename, level=-1, flag=None, label='unset', parseinfo='unset'):
+        # keyword parameters with falsy values, and the parseinfo keyword (None while parseinfo is off)
+        self.seen.append(('z', typename, level, flag, label, parseinfo))
+        return ('Z', ast, level, flag, label, parseinfo)
+
     def _default(self, ast, *a, **k):
         return ast
 
@@ -177,6 +183,8 @@ def ref_run(g, text, kind, arg=None, start=None):
             return ['<tuple>', 'P', value]
         if kind == 'declared' and rule.name == 'q':
             return ['<tuple>', 'Q', value]
+        if kind == 'declared' and rule.name == 'z':
+            return ['<tuple>', 'Z', value, 0, False, '', None]
         return value
 
     ref = Ref(g, Cfg(), actions=action)
@@ -317,7 +325,7 @@ def check_grammar(m, name, g, inputs, nomemo=frozenset(), is_lr=False, menu=('no
                 m.add('evaluations')
                 if not same(want, got):
                     m.violation(f'declared-params-value-differs/{which}', grammar=label, input=text, got=got, want=want)
-                bad = [s for s in d.seen if s not in (('p', 'A', 1), ('q', 2))]
+                bad = [s for s in d.seen if s not in (('p', 'A', 1), ('q', 2), ('z', 'Z', 0, False, '', None))]
                 if bad:
                     m.violation(f'declared-params-wrong/{which}', grammar=label, input=text, seen=bad)
 
